@@ -11,9 +11,9 @@ import (
 
 func init() {
 	register(&propDef{
-		ID:    "C20",
-		Title: "Transport and plugin chain do not alter answers",
-		Run:   runC20,
+		ID:          "C20",
+		Title:       "Transport and plugin chain do not alter answers",
+		Run:         runC20,
 		Explanation: "Structural necessary conditions, decided on SSA: (guard) the question-count guard dominates the call into the handler chain, and front handlers are only built by Server.Start; (passthrough) every front handler forwards its own (w, r) unmodified to plugin.NextOrFailure with its own Next, the context being the one it got or WithMaxAnswer(ctx, its configured value), and never stores through r; (any) the ANY handler forwards iff the type is not ANY (and nothing else), and answers ANY itself with a one-element answer holding a *dns.HINFO, never reaching Next; (samemux) per listen address one serveMux is built inside the address loop around a max-answer handler constructed from that address's value, the same mux value goes to the UDP, TCP and TLS servers, and every Next link is set to the previous head of the chain which starts at the database handler; (trunc) size and scrub precede every write. Wire-level equality over transports is not decided.",
 	})
 }
@@ -353,7 +353,9 @@ func c20SameMux(c *Ctx) {
 			next = n
 		}
 	}
-	inLoop := func(b *ssa.BasicBlock) bool { return next != nil && next.Block().Dominates(b) && b != next.Block() && inCycle(b) }
+	inLoop := func(b *ssa.BasicBlock) bool {
+		return next != nil && next.Block().Dominates(b) && b != next.Block() && inCycle(b)
+	}
 	okMax := len(maxCalls) == 1 && inLoop(maxCalls[0].Block())
 	if okMax {
 		// argument is the map value of this iteration
